@@ -15,6 +15,7 @@ fn fmt_name(f: Fmt) -> &'static str {
         Fmt::MsgPack => "msgpack",
         Fmt::JsonReader => "json-reader",
         Fmt::JsonValue => "json-value",
+        Fmt::RonNamed => "ron-named",
     }
 }
 
@@ -59,7 +60,7 @@ pub fn check<I: Inputs>(vt: &'static Vt<I>, ctx: &Ctx) -> DeclReport {
                 }
             }
             let bytes = got.unwrap();
-            if f != Fmt::Ron {
+            if f != Fmt::Ron && f != Fmt::RonNamed {
                 // transparent: byte-identical to the inner value's own encoding
                 if let Ok(inner_bytes) = enc(f, &v) {
                     if inner_bytes != bytes {
@@ -70,7 +71,7 @@ pub fn check<I: Inputs>(vt: &'static Vt<I>, ctx: &Ctx) -> DeclReport {
             // round trip, when the inner value itself round-trips in this format
             if let Some(de) = vt.de {
                 let inner_rt = match f {
-                    Fmt::Ron => ser_ref(v.clone(), f).ok().and_then(|b| vt.de_ref.and_then(|d| d(f, Pos::Top, &b).ok())).and_then(|x| x.into_iter().next()),
+                    Fmt::Ron | Fmt::RonNamed => ser_ref(v.clone(), f).ok().and_then(|b| vt.de_ref.and_then(|d| d(f, Pos::Top, &b).ok())).and_then(|x| x.into_iter().next()),
                     _ => enc(f, &v).ok().and_then(|b| dec::<I>(f, &b).ok()),
                 };
                 if let Some(back) = inner_rt {
